@@ -39,7 +39,9 @@ type sched struct {
 	p        *an.Prog
 	status   map[string]int64 // role → value
 	statusOf map[int64]string
-	schedule *ssa.Function
+	schedule *ssa.Function  // the function holding the scheduling loop (Schedule, or what it forwards to)
+	entry    *ssa.Function  // the exported Scheduler.Schedule
+	graph    *ssa.Parameter // the scheduled graph in schedule
 	cancel   *ssa.Function
 	// the scheduling loop (outer) and the per-stage loop (inner) of Schedule
 	outer, inner *an.Loop
@@ -57,14 +59,14 @@ type sched struct {
 	// a hand-made replacement of the WaitGroup (latch.go), resolved on demand
 	latch       *chanLatch
 	latchLooked bool
-	runnerCalls  []ssa.CallInstruction // calls in body that synchronously reach Runner.Run
-	runStage     *ssa.Function         // function invoking Runner.Run
-	gate         *ssa.Function
-	gateLoop     *an.Loop
-	gateCall     *ssa.Call // call of gate in launchFn
-	loopStage    ssa.Value // the stage of the current iteration of the per-stage loop
-	isDone       *ssa.Function
-	ok           bool
+	runnerCalls []ssa.CallInstruction // calls in body that synchronously reach Runner.Run
+	runStage    *ssa.Function         // function invoking Runner.Run
+	gate        *ssa.Function
+	gateLoop    *an.Loop
+	gateCall    *ssa.Call // call of gate in launchFn
+	loopStage   ssa.Value // the stage of the current iteration of the per-stage loop
+	isDone      *ssa.Function
+	ok          bool
 }
 
 func statusLabel(s *sched, v int64) string {
@@ -92,7 +94,7 @@ func resolveSched(c *an.Ctx, rule string) *sched {
 		c.Bad(rule, "scheduler.Status*", token.NoPos, "two status constants share a value: %v", s.status)
 		return s
 	}
-	s.schedule = p.Func("pkg/scheduler", "Scheduler", "Schedule")
+	s.entry, s.schedule, s.graph = scheduleImpl(p)
 	s.cancel = p.Func("pkg/scheduler", "Scheduler", "Cancel")
 	if s.schedule == nil || s.cancel == nil {
 		c.Und(rule, "scheduler.(*Scheduler).Schedule", token.NoPos, "entry points Scheduler.Schedule / Scheduler.Cancel not found")
@@ -102,7 +104,7 @@ func resolveSched(c *an.Ctx, rule string) *sched {
 
 	// functions reachable from Schedule without crossing a go statement
 	syncReach := p.Reach([]*ssa.Function{s.schedule}, func(e an.CallEdge) bool {
-		return e.Kind != an.EdgeGo && an.InModule(e.Callee) && e.Callee != s.schedule
+		return e.Kind != an.EdgeGo && an.InModule(e.Callee) && !s.isSchedule(e.Callee)
 	})
 	reachesRun := func(f *ssa.Function) (bool, *ssa.Function) {
 		r := p.Reach([]*ssa.Function{f}, func(e an.CallEdge) bool { return e.Kind != an.EdgeGo && an.InModule(e.Callee) })
@@ -180,7 +182,7 @@ func resolveSched(c *an.Ctx, rule string) *sched {
 					continue
 				}
 				// a nested pipeline: Schedule returns when its stages have run (C03.2)
-				if callee == s.schedule {
+				if s.isSchedule(callee) {
 					s.runnerCalls = append(s.runnerCalls, ci)
 					return
 				}
@@ -358,8 +360,8 @@ func isToCall(v ssa.Value) bool {
 			if _, ok := an.IsCallTo(x, fnGraphTo); ok {
 				return true
 			}
-		case *ssa.Lookup:
-			if an.AccessPath(x.X).LastField() == "to" {
+		case *ssa.Lookup, *ssa.Field:
+			if loc, _, ok := edgeListRead(x); ok && an.CurrentProg != nil && loc == resolveEdgeRoles(an.CurrentProg).loc["to"] {
 				return true
 			}
 		}
@@ -678,4 +680,83 @@ func (s *sched) chanLatchOf() *chanLatch {
 		s.latch = resolveChanLatch(s)
 	}
 	return s.latch
+}
+
+// scheduleImpl finds the function that does the scheduling behind the exported entry point: Scheduler.Schedule
+// itself, or — when Schedule only forwards (one call of a function of the package that gets the receiver and the
+// graph, its result returned unchanged: `return s.schedule(context.Background(), g)`) — the function it forwards
+// to. It also returns that function's graph parameter.
+func scheduleImpl(p *an.Prog) (entry, impl *ssa.Function, graph *ssa.Parameter) {
+	entry = p.Func("pkg/scheduler", "Scheduler", "Schedule")
+	if entry == nil {
+		return nil, nil, nil
+	}
+	impl = entry
+	if len(entry.Params) > 1 {
+		graph = entry.Params[1]
+	}
+	for depth := 0; depth < 3; depth++ {
+		if impl.Blocks == nil || len(impl.Blocks) != 1 || graph == nil {
+			return
+		}
+		var only *ssa.Call
+		n := 0
+		for _, in := range impl.Blocks[0].Instrs {
+			if call, ok := in.(*ssa.Call); ok {
+				if callee := call.Call.StaticCallee(); callee != nil && an.InModule(callee) && callee.Pkg == entry.Pkg {
+					only = call
+					n++
+					continue
+				}
+				if an.InModule(call.Call.StaticCallee()) {
+					return
+				}
+			}
+		}
+		if n != 1 {
+			return
+		}
+		rets := an.Returns(impl)
+		if len(rets) != 1 || len(rets[0].Results) != 1 || rets[0].Results[0] != ssa.Value(only) {
+			return
+		}
+		callee := only.Call.StaticCallee()
+		var gp *ssa.Parameter
+		for i, a := range only.Call.Args {
+			if a == ssa.Value(graph) && i < len(callee.Params) {
+				gp = callee.Params[i]
+			}
+		}
+		if gp == nil || callee.Blocks == nil {
+			return
+		}
+		impl, graph = callee, gp
+	}
+	return
+}
+
+// isSchedule: f is the scheduling function or the exported entry point in front of it.
+func (s *sched) isSchedule(f *ssa.Function) bool {
+	return f != nil && (f == s.schedule || f == s.entry)
+}
+
+// scheduleCallsIn lists the calls in fn of the scheduling function (or its entry point).
+func (s *sched) scheduleCallsIn(fn *ssa.Function) []ssa.CallInstruction {
+	var out []ssa.CallInstruction
+	if fn == nil {
+		return nil
+	}
+	an.EachInstr(fn, func(in ssa.Instruction) {
+		ci, ok := in.(ssa.CallInstruction)
+		if !ok {
+			return
+		}
+		for _, callee := range s.p.Callees(ci.Common()) {
+			if s.isSchedule(callee) {
+				out = append(out, ci)
+				return
+			}
+		}
+	})
+	return out
 }
